@@ -621,7 +621,7 @@ def run_hist(spec):
 
 
 def _hist_mode(items, start, finish, strict, _unused):
-    for mode in (False, True):
+    for mode in (True, False):
         strict[0] = mode
         r = _hist_once(items, start, finish)
         if not r.startswith("OK"):
@@ -639,9 +639,12 @@ def _hist_once(items, start, finish):
                 for e in g:
                     if isinstance(e, MarshalEvent):
                         evs.append(e)
+                    else:
+                        evs.append("W %s %s" % (type(getattr(e, "error", e)).__name__, getattr(e, "error", e)))
             except Exception as e:  # noqa
                 evs.append("EXC " + type(e).__name__)
-            runs.append(finish(evs, g, root))
+            fin = finish([x for x in evs if not (isinstance(x, str) and x.startswith("W "))], g, root)
+            runs.append((evs,) + fin[1:])
     n = len(items)
     # interleaved: round robin over next()
     gens = [start(root, hexs) for root, hexs in items]
@@ -654,13 +657,16 @@ def _hist_once(items, start, finish):
                 e = next(its[i])
                 if isinstance(e, MarshalEvent):
                     out[i].append(e)
+                else:
+                    out[i].append("W %s %s" % (type(getattr(e, "error", e)).__name__, getattr(e, "error", e)))
             except StopIteration:
                 live.remove(i)
             except Exception as e:  # noqa
                 out[i].append("EXC " + type(e).__name__)
                 live.remove(i)
     for i, (root, hexs) in enumerate(items):
-        runs.append(finish(out[i], gens[i], root))
+        fin = finish([x for x in out[i] if not (isinstance(x, str) and x.startswith("W "))], gens[i], root)
+        runs.append((out[i],) + fin[1:])
     for i in range(n):
         ref = runs[i]
         for k, other in ((1, runs[n + i]), (2, runs[2 * n + i])):
@@ -734,6 +740,45 @@ def run_stream9(spec):
     for j, (a, b) in enumerate(zip(sobjs, objs)):
         if a != b:
             return "BAD object %d" % j
+    return "OK %d" % len(parts)
+
+
+def run_stream9w(spec):
+    """C09 in warn mode: parts = hex,hex,... ; the stream decode (events and warnings) must equal the concatenation of
+    the individual warn-mode decodes (the response with its command's code and encryption expectation)"""
+    parts = [bytes.fromhex(x) for x in spec.split(",")]
+
+    def sig(evs):
+        return [show_event(e, 0) for e in evs]
+
+    try:
+        stream = sig(list(Binary.marshal(tpm_type=CommandResponseStream, buffer=b"".join(parts), abort_on_error=False)))
+        sexc = None
+    except Exception as e:  # noqa
+        stream, sexc = None, type(e).__name__
+    indiv = []
+    cc, enc = None, False
+    for i, p in enumerate(parts):
+        try:
+            if i % 2 == 0:
+                evs = list(Binary.marshal(tpm_type=Command, buffer=p, abort_on_error=False))
+                cc = int.from_bytes(p[6:10], "big")
+                enc = enc_of_command_events([("E", e, e) for e in evs if isinstance(e, MarshalEvent)])
+            else:
+                kw = {"command_code": TPM_CC(cc)}
+                if enc:
+                    kw["parameter_encryption"] = True
+                evs = list(Binary.marshal(tpm_type=Response, buffer=p, abort_on_error=False, **kw))
+        except Exception as e:  # noqa
+            return "NA part-%d-raises-%s" % (i, type(e).__name__)
+        if any(isinstance(e, WarningEvent) and type(e.error).__name__.startswith(("InputStream", "SizeConstraint")) for e in evs):
+            return "NA part-%d-size-problem" % i
+        indiv += sig(evs)
+    if sexc is not None:
+        return "BAD stream-raises %s although every message decodes on its own in warn mode" % sexc
+    if stream != indiv:
+        j = next((k for k, (a, b) in enumerate(zip(stream, indiv)) if a != b), min(len(stream), len(indiv)))
+        return "BAD event %d stream=%s individual=%s" % (j, stream[j] if j < len(stream) else None, indiv[j] if j < len(indiv) else None)
     return "OK %d" % len(parts)
 
 
@@ -932,6 +977,33 @@ def run_pretty(abort, root, hexs):
 
     evs, out, exc = collect(abort, root, hexs)
     raw = [e[2] for e in evs]
+    # history probe: what was printed before in this process must not show in what is printed now.  The same events
+    # are first printed two levels deeper (a printer remembering rows by type and value would now replay their
+    # indentation) and with every attribute word complemented (a printer remembering rows by type, or by a text form
+    # that does not determine the value, would replay their bits); both printouts are thrown away.
+    try:
+        from tpmstream.common.path import Path as _P, PathNode as _PN
+
+        def _shift(e):
+            return MarshalEvent(path=_P([_PN(""), _PN("probe")]) + e.path[1:] if len(e.path) else e.path, type=e.type, value=e.value)
+
+        def _flip(e):
+            v = e.value
+            if v is not ... and hasattr(v, "attributes") and hasattr(type(v), "_int_size"):
+                try:
+                    return MarshalEvent(path=e.path, type=e.type, value=type(v)((~int(v)) & ((1 << (8 * type(v)._int_size)) - 1)))
+                except Exception:  # noqa
+                    return e
+            return e
+
+        for probe in ([_shift(e) for e in raw if isinstance(e, MarshalEvent)], [_flip(e) for e in raw if isinstance(e, MarshalEvent)]):
+            try:
+                for _ in Pretty.unmarshal(iter(probe)):
+                    pass
+            except Exception:  # noqa
+                pass
+    except Exception:  # noqa
+        pass
     try:
         lines = list(Pretty.unmarshal(iter(raw)))
     except Exception as e:  # noqa
@@ -1033,6 +1105,8 @@ def handle(line):
         return run_fesrc(parts[1], parts[2] == "1", parts[3], parts[4])
     if parts[0] == "stream9":
         return run_stream9(parts[1])
+    if parts[0] == "stream9w":
+        return run_stream9w(parts[1])
     if parts[0] == "objs":
         return run_objs(parts[1], parts[2])
     if parts[0] == "hist":
